@@ -348,6 +348,29 @@ Proof.
   destruct H1 as [_ [N1 _]]. destruct H2 as [_ [N2 _]]. rewrite N1, N2 in E. inversion E. reflexivity.
 Qed.
 
+(* the authenticated user's name is the ONLY identity in the certificate: no further principal, no
+   critical option, no DNS / e-mail / URI / address / directory / other-name entry, no further subject
+   attribute beside the organisations (the PKINIT name, d_krb, is the same user in the configured realm) *)
+Theorem no_other_names st now lim q u c :
+  certgen expand st now lim q = Issued u c ->
+  d_other_names c = [] /\ d_names c = [s_name st u] /\
+  match d_krb c with Some (r, p) => s_realm st = Some r /\ p = s_name st u | None => True end.
+Proof.
+  intros H. pose proof (binding_fields _ _ _ _ _ _ H) as [_ [N _]].
+  apply certgen_issued in H. destruct H as [_ [l2 [iat [_ [_ [_ [_ [_ K]]]]]]]].
+  destruct K as [[_ K]|[[_ K]|[_ K]]].
+  - unfold ssh_cert in K. destruct (q_key q) as [[k ed]|]; [|discriminate].
+    destruct (ed && negb (s_ed25519_ca st)); [discriminate|].
+    destruct (expand_extensions expand (s_templates st) (s_name st u) []); [|discriminate].
+    inversion K; subst; cbn. auto.
+  - unfold x509_cert in K. destruct (if false || q_add_groups q then s_groups st (s_name st u) else Some []); [|discriminate].
+    destruct (s_methods st (s_name st u)); [|discriminate]. destruct (q_key q) as [[k ed]|]; [|discriminate].
+    inversion K; subst; cbn. repeat split; auto. destruct (s_realm st); auto.
+  - unfold x509_cert in K. destruct (if true || q_add_groups q then s_groups st (s_name st u) else Some []); [|discriminate].
+    destruct (s_methods st (s_name st u)); [|discriminate]. destruct (q_key q) as [[k ed]|]; [|discriminate].
+    inversion K; subst; cbn. repeat split; auto. destruct (s_realm st); auto.
+Qed.
+
 (* X.509 certificates carry no SSH extensions; SSH ones no X.509 attributes *)
 End C02.
 
